@@ -276,6 +276,15 @@ class CallMixin:
             self._codec = (blen, barr, sof)
         return self._codec
 
+    def unopt_deep(self, v, ty, node, st):
+        """v is about to be stored where type ty is declared: optional parts whose declared type is not optional must not be
+        None there (Python would store None; the declared shape says that never happens -> obligation)"""
+        if isinstance(v, VOpt) and not isinstance(ty, TOpt):
+            return self.unopt_deep(self.unopt(v, node, st, "None stored where %s is declared" % ty), ty, node, st)
+        if isinstance(v, VTuple) and isinstance(ty, TTuple) and len(v.items) == len(ty.items):
+            return VTuple([self.unopt_deep(i, t, node, st) for i, t in zip(v.items, ty.items)])
+        return v
+
     def unopt(self, v, node, st, what="use of None"):
         if isinstance(v, VOpt):
             self.oblige(st, "safety", node, z3.Not(v.isnone), what)
@@ -474,7 +483,10 @@ class CallMixin:
                 if c is None:
                     self.unsupported(node, "enum classmethod %s.%s without contract" % (root, attr))
                 args, kw = self.args_of(node, st)
-                return self.call_user(c, args, kw, node, st, VFunc(None, "enumclass:" + root))
+                fd, _, _ = self.callee_def(c)
+                if any(isinstance(d, ast.Name) and d.id == "classmethod" for d in fd.decorator_list):
+                    args = [VFunc(None, "enumclass:" + root)] + args
+                return self.call_user(c, args, kw, node, st, None)
             if root == "int" and attr == "from_bytes":
                 args, kw = self.args_of(node, st)
                 return self.from_bytes(args[0], node, st)
@@ -549,6 +561,7 @@ class CallMixin:
                 if isinstance(x, VNone):
                     raise Unsupported("append None to an untyped list")
             else:
+                x = self.unopt_deep(x, l.ety, node, st)
                 nl = VList(l.ety, l.n + 1, z3.Store(l.a, l.n, pack(coerce(x, l.ety))))
             self.mutate(f.value, nl, st)
             return VNone()
